@@ -6,13 +6,15 @@ line-protocol driver for C12.  Byte strings travel as lower-case hex (`-` = empt
   rt <ow> : item;item;…                     the same for documents given as items of the documented dialect
                                             (`P` separates the first source from the second), rendered by `renderDoc`
        B,ws | C,ws,text | H,ws1,ws2,p,ws3,junk | A,ws1,key,ws2,ws3,q,value,ws4,cmt     q ∈ n|s|d, cmt ∈ n|c<hex>
+  bads <ow> <n> <pre> <doc>                 readINITree(pre) into an empty tree, then readINITree(doc, ow) from a stream that delivers
+                                            n bytes of doc and then fails (badbit)
   hostile <doc>                             arbitrary bytes: the only claim is "returns or throws a Dune exception";
                                             the answer is the constant `done` (no model comparison for this stream)
   opt <pre> <arg>…                          readOptions, argv[1..]
   nopt <required> <allowMore> <ow> <pre> <nkw> <kw>… <arg>…      readNamedOptions
   get <T> <text>                            pt["k"]=text; pt.get<T>("k")   (`noclaim` for a negative literal with an unsigned T)
   shw <int>                                 decimal text of a built-in integer
-  tq <key>=<value>,… : probe;probe;…        tree built with operator[], then hk|hs|gs|sk|skf <key>, gd|gi <key> <default>
+  tq <key>=<value>,… : probe;probe;…        tree built with operator[] (`<key>=@`: non-const sub(key)), then hk|hs|gs|sk|skf <key>, gd|gi <key> <default>
 -/
 open DV DV.C12
 
@@ -34,6 +36,7 @@ def showErr : Err → String
   | .range => "ERR:Range"
   | .parser => "ERR:Parser"
   | .help => "ERR:Help"
+  | .io => "ERR:IO"
   | .fuel => "ERR:Fuel"
 
 -- the tree as seen through getValueKeys / getSubKeys / operator[] const / sub() const
@@ -92,6 +95,12 @@ def showOpt (f : α → String) : Option α → String
 def showDbl (bits : Nat) : String :=
   let h := toHex bits
   "d:" ++ String.ofList (List.replicate (16 - h.length) '0') ++ h
+def showFlt (bits : Nat) : String :=
+  let h := toHex bits
+  "f:" ++ String.ofList (List.replicate (8 - h.length) '0') ++ h
+def showChr (c : Char) : String := "c:" ++ hx [c]
+def showFltL (l : List Nat) : String := "[" ++ ",".intercalate (l.map showFlt) ++ "]"
+def showChrL (l : List Char) : String := "[" ++ ",".intercalate (l.map showChr) ++ "]"
 def showIntL (l : List Int) : String := showList l
 def showStrL (l : List Str) : String := "[" ++ ",".intercalate (l.map hx) ++ "]"
 def showBoolL (l : List Bool) : String := "[" ++ ",".intercalate (l.map showB) ++ "]"
@@ -117,6 +126,10 @@ def getOp (ty : String) (text : Str) : String :=
     | "bool" => showOpt showB (parseBool text)
     | "str" => "s:" ++ hx (parseString text)
     | "dbl" => showOpt showDbl (parseDouble text)
+    | "flt" => showOpt showFlt (parseFloat text)
+    | "chr" => showOpt showChr (parseScalar extractChar text)
+    | "vf" => showOpt showFltL (parseVector parseFloat text)
+    | "vc" => showOpt showChrL (parseVector (parseScalar extractChar) text)
     | "vi" => showOpt showIntL (parseVector (parseInt ⟨true, 32⟩) text)
     | "vu" => showOpt showIntL (parseVector (parseInt ⟨false, 32⟩) text)
     | "vb" => showOpt showBoolL (parseVector parseBool text)
@@ -129,17 +142,22 @@ def getOp (ty : String) (text : Str) : String :=
       | some ("au", n) => showOpt showIntL (parseRange (extractInt ⟨false, 32⟩) n text)
       | some ("as", n) => showOpt showStrL (parseRange extractWord n text)
       | some ("ad", n) => showOpt showDblL (parseRange extractDouble n text)
+      | some ("fd", n) => showOpt showDblL (parseRange extractDouble n text)
+      | some ("af", n) => showOpt showFltL (parseRange extractFloat n text)
+      | some ("ac", n) => showOpt showChrL (parseRange extractChar n text)
       | some ("bs", n) => showOpt showBoolL (parseBitset n text)
       | _ => "bad-op"
 
-def parseKV (s : String) : Option (Str × Str) :=
+/-- `key=value` (operator[] assignment) or `key=@` (non-const `sub(key)`) -/
+def parseKV (s : String) : Option (Str × Option Str) :=
   match s.splitOn "=" with
-  | [k, v] => do pure (← unhex k, ← unhex v)
+  | [k, v] => if v = "@" then do pure (← unhex k, none) else do pure (← unhex k, some (← unhex v))
   | _ => none
 
-def buildTree : List (Str × Str) → Tree → Except Err Tree
+def buildTree : List (Str × Option Str) → Tree → Except Err Tree
   | [], t => .ok t
-  | (k, v) :: r, t => match t.set k v with
+  | (k, v) :: r, t =>
+    match (match v with | some v => t.set k v | none => t.mkSub k) with
     | .error e => .error e
     | .ok t' => buildTree r t'
 
@@ -187,6 +205,13 @@ def handle (line : String) : String :=
         let d2 := renderDoc main
         "wf=" ++ showB ((pre ++ main).all Item.wf) ++ " pre=" ++ hx d1 ++ " doc=" ++ hx d2 ++ " " ++ showRes (twoDocs ow d1 d2)
       | _, _ => "bad-op"
+  | ["bads", ow, n, pre, doc], none =>
+    match parseBoolTok ow, n.toNat?, unhex pre, unhex doc with
+    | some ow, some n, some pre, some doc =>
+      (match parseINI pre .empty true with
+       | .error e => showErr e
+       | .ok t => showRes (parseBad doc n t ow))
+    | _, _, _, _ => "bad-op"
   | ["hostile", doc], none => match unhex doc with | some _ => "done" | none => "bad-op"
   | "opt" :: pre :: args, none =>
     match unhex pre, args.mapM unhex with
